@@ -4,7 +4,8 @@ import (
 	"fmt"
 	"io"
 	"os"
-	"path"
+	"path/filepath"
+	"sync/atomic"
 
 	"github.com/fsnotify/fsnotify"
 )
@@ -19,6 +20,7 @@ type NotifyFollowReader struct {
 	watcher     *fsnotify.Watcher
 	eventWrite  chan struct{}
 	eventDelete chan struct{}
+	names       atomic.Value // []string: the followed name and, if it is a symbolic link, the names it leads to
 }
 
 var _ FollowReader = &NotifyFollowReader{}
@@ -92,11 +94,13 @@ func (s *NotifyFollowReader) Read(buf []byte) (int, error) {
 				if f, err := os.Open(s.filename); err == nil {
 					s.f = f
 				}
+				s.watchNames(s.watcher) // a link may lead somewhere else now
 			}
 		case <-s.eventDelete:
 			if s.ReOpen {
 				if !s.isCurrentFile() { // a delete event of an earlier file at this path is stale
 					s.closeFile()
+					s.watchNames(s.watcher)
 				}
 			} else {
 				s.Close()
@@ -112,7 +116,7 @@ func (s *NotifyFollowReader) startWatcher() (*fsnotify.Watcher, error) {
 		return nil, err
 	}
 
-	if err := watcher.Add(path.Dir(s.filename)); err != nil {
+	if err := s.watchNames(watcher); err != nil {
 		watcher.Close()
 		return nil, err
 	}
@@ -124,7 +128,7 @@ func (s *NotifyFollowReader) startWatcher() (*fsnotify.Watcher, error) {
 			switch {
 			case !ok:
 				return
-			case path.Base(s.filename) != path.Base(event.Name):
+			case !s.isWatchedName(event.Name):
 				// nop
 			case event.Op&fsnotify.Write != 0:
 				writeSignalNonBlock(s.eventWrite)
@@ -137,6 +141,48 @@ func (s *NotifyFollowReader) startWatcher() (*fsnotify.Watcher, error) {
 	}()
 
 	return watcher, nil
+}
+
+// linkChain returns the cleaned name and, while it is a symbolic link, the names the link(s) lead to
+func linkChain(name string) []string {
+	name = filepath.Clean(name)
+	chain := []string{name}
+	for hops := 0; hops < 40; hops++ {
+		target, err := os.Readlink(name)
+		if err != nil {
+			break
+		}
+		if !filepath.IsAbs(target) {
+			target = filepath.Join(filepath.Dir(name), target)
+		}
+		name = filepath.Clean(target)
+		chain = append(chain, name)
+	}
+	return chain
+}
+
+// watchNames (re)computes the link chain of the followed name and watches the directory of each of its names:
+// writes to and the removal of a link's target are reported under the target's name, not the link's
+func (s *NotifyFollowReader) watchNames(watcher *fsnotify.Watcher) error {
+	chain := linkChain(s.filename)
+	var ret error
+	for i, name := range chain {
+		if err := watcher.Add(filepath.Dir(name)); err != nil && i == 0 {
+			ret = err
+		}
+	}
+	s.names.Store(chain)
+	return ret
+}
+
+func (s *NotifyFollowReader) isWatchedName(eventName string) bool {
+	eventName = filepath.Clean(eventName)
+	for _, name := range s.names.Load().([]string) {
+		if name == eventName {
+			return true
+		}
+	}
+	return false
 }
 
 func (s *NotifyFollowReader) closeFile() {
